@@ -219,7 +219,6 @@ def v15_round(ctx, L, ks, hname, full):
     ctx.check(r1[0] == r2[0], "repeat:%s:verify-outcome-differs" % scheme,
               "verifying the same (hash object, signature) twice gave different outcomes", base)
     offer("produced", sig, keysel=2, produced=True)
-    offer("produced", bytearray(sig), produced=True)
     offer("other-message", sig, m=msg2)
     offer("other-key", sig, keysel=1)
     others = [x for x in L.hashes if x != hname]
@@ -299,6 +298,18 @@ def w_shortkey(spec, ctx, L):
 
 def _xor(a, b):
     return bytes(x ^ y for x, y in zip(a, b))
+
+
+def _rectape_class(L):
+    class RecTape(L.entropy.Tape):
+        """Tape that also keeps what it returned."""
+
+        def read(self, n):
+            b = super().read(n)
+            self.__dict__.setdefault("out", []).append(b)
+            return b
+        __call__ = read
+    return RecTape
 
 
 class Mgf:
@@ -426,8 +437,12 @@ def pss_round(ctx, L, ks, hname, slcls, mgfkind, full, rand_path="rand_func"):
     h = L.hnew(hname, msg)
     ctx.case((scheme,) + ks.cls() + (hname, slcls, mgfkind, rand_path, "sign"))
 
+    if not hasattr(L, "RecTape"):
+        L.RecTape = _rectape_class(L)
+    RecTape = L.RecTape
+
     def do_sign(hobj):
-        tape = L.entropy.Tape(tape_data, rng=pyrandom.Random(tseed))
+        tape = RecTape(tape_data, rng=pyrandom.Random(tseed))
         if rand_path == "rand_func":
             return outcome(new(ks.key, salt_arg, tape).sign, hobj), tape
         with tape:                                  # default rand_func = Crypto.Random (salt first, then blinding)
@@ -441,12 +456,20 @@ def pss_round(ctx, L, ks, hname, slcls, mgfkind, full, rand_path="rand_func"):
     ctx.count("signed:%s:%s" % (scheme, hname))
     ctx.count("pss_salt_class:" + slcls)
     ctx.count("pss_mgf:" + mgfkind)
-    got_req = tape.log[0] if tape.log else None
-    ctx.check(got_req == sl and (rand_path != "rand_func" or tape.log == [sl]), "bytes:pss:salt-request",
-              "sign() did not ask the random source for exactly one salt of the configured length",
-              lambda: dict(base(), requests=tape.log[:6]))
-    model_em = L.rsa.emsa_pss_encode(mhash, em_bits, tape_data, hname, mgf.model)
-    model_sig = sig_of_em(kd, model_em)
+    if rand_path == "rand_func":
+        ctx.check(tape.log == [sl], "bytes:pss:salt-request",
+                  "sign() did not ask rand_func for exactly one salt of the configured length",
+                  lambda: dict(base(), requests=tape.log[:6]))
+        salts = [tape_data]
+    else:
+        # default source: the salt is SOME sLen-byte string Crypto.Random returned during sign() (the order relative to
+        # the blinding draws is not specified)
+        salts = [b for b in getattr(tape, "out", []) if len(b) == sl][:8] or [tape_data]
+    for salt in salts:
+        model_em = L.rsa.emsa_pss_encode(mhash, em_bits, salt, hname, mgf.model)
+        model_sig = sig_of_em(kd, model_em)
+        if model_sig == sig:
+            break
     if ctx.check(sig == model_sig, "bytes:%s:signature-differs" % scheme,
                  "the PSS signature is not EM^d mod n for EMSA-PSS-ENCODE with salt = the bytes the random source returned",
                  lambda: dict(base(), signature=sig.hex(), model_signature=model_sig.hex(), model_em=model_em.hex(),
@@ -525,7 +548,7 @@ def pss_round(ctx, L, ks, hname, slcls, mgfkind, full, rand_path="rand_func"):
                        lambda: dict(base(), salt_bytes=smax + 1), "refused:pss-salt-too-long")
     if ctx.want_sample() and slcls in ("max", "hlen"):
         ctx.sample({"scheme": scheme, "bits": bits, "e": e, "hash": hname, "salt_len": sl, "mgf": mgf.name,
-                    "message": msg.hex(), "salt": tape_data.hex(), "signature": sig.hex(), "equals_model": sig == model_sig})
+                    "message": msg.hex(), "salt": salt.hex(), "signature": sig.hex(), "equals_model": sig == model_sig})
 
 
 PSS_HASHES = SHA1 + SHA2 + SHA3
